@@ -668,11 +668,12 @@ class LogWorld:
     PREFIX = ROOT + "/log"
 
     def __init__(self, fs, rule, fields=None, share_init=None, tick=0.125, logger_kw=None,
-                 base="log", tag="x", share_name="mc.x", more_logs=(), more_loggees=(), unstamped=()):
+                 base="log", tag="x", share_name="mc.x", more_logs=(), more_loggees=(), unstamped=(), no_loggee=False):
         """more_logs: further logs in the same logger, (base, rule, fields) on the same share or
         (base, rule, fields, share_name, share_init) on another share (created on demand).
         more_loggees: further loggees of the FIRST log, (tag, share_name, fields, share_init).
-        unstamped: share names whose initial fields are set with Share.change() (stamp stays None)."""
+        unstamped: share names whose initial fields are set with Share.change() (stamp stays None).
+        no_loggee: the first log gets no loggee at all (FloScript `log beat on always`)."""
         from ioflo.base import housing, logging as iologging, globaling
         from ioflo.aid.odicting import odict
         housing.House.Clear()
@@ -694,7 +695,8 @@ class LogWorld:
         if share_init:
             (self.share.change if share_name in unstamped else self.share.create)(odict(share_init))
         self.log = iologging.Log(name=base, store=self.store, kind="text", rule=rule)
-        self.log.addLoggee(tag=tag, loggee=share_name, fields=list(fields) if fields else None)
+        if not no_loggee:
+            self.log.addLoggee(tag=tag, loggee=share_name, fields=list(fields) if fields else None)
         self.shares = {share_name: self.share}
         for tag2, sname2, fields2, init2 in more_loggees:
             if sname2 not in self.shares:
